@@ -181,7 +181,7 @@ for _n, _t, _to in [(1, ("quick", "thorough"), 120), (2, ("quick", "thorough"), 
     _mk_text_measure(_n, _t, _to)
 
 
-_WORDS = ["hello", "你好世", "ab", "wide", "你好世界", "mix", "á", "", "x y", "a\nbb"]
+_WORDS = ["hello", "你好世", "ab", "wide", "你好世界", "mix", "a\u0301", "", "x y", "a\nbb"]
 
 
 @symx("C09-text-measure-words", timeout=900, kind="P", functions=["rich/text.py:Text.__rich_measure__"],
